@@ -13,15 +13,16 @@ PROP = dict(
                'warning alerts, renegotiation ClientHello, false-start data and re-tagged bodies are "receiver may refuse": only the safety invariants are checked); '
                'the harness follows the documented caller contract of matrixsslApi.c; entropy/clock pinned by ld --wrap.',
     technique='property-based testing: model-based trace mutation with a scripted keyed peer (state-machine fuzzing in the style of SMACK / EarlyCCS), history monitor on completion and delivery',
-    rule='TLS 1.2/1.1 and DTLS 1.2/1.0 (c06_seq12*): case = (victim role, TLS 1.2 RSA/ECDHE x GCM/CBC-SHA256 or TLS 1.1 RSA/ECDHE CBC-SHA or DTLS 1.2 RSA/ECDHE GCM or DTLS 1.0 RSA/ECDHE CBC-SHA (DTLS: full handshakes with cookie exchange, with/without client-auth; every puppet record is one datagram, lock-step, no timers), full or session-id-resumed handshake or (client victim) a session that holds an id AND a RFC 5077 ticket, which the server accepts (abbreviated) or declines (full), or (client victim) history mode ticket-from-cut-handshake = the same sslSessionId_t went through a handshake with a ticket-issuing server that was cut after ServerHelloDone / NewSessionTicket / NewSessionTicket+CCS (silently or by a fatal alert): the next ClientHello must offer no id and no ticket (signature ticket-of-incomplete-handshake-offered) and only a full handshake is legal, (server victim, session-ticket keys loaded) client offering the SessionTicket extension empty or with a bogus ticket so that the server is in its ticket-issuing state, client-auth, EMS pairing, 0-2 ops from {delete i, duplicate i (same bytes or rebuilt), '
+    rule='TLS 1.2/1.1 and DTLS 1.2/1.0 (c06_seq12*): case = (victim role, TLS 1.2 RSA/ECDHE x GCM/CBC-SHA256 or TLS 1.1 RSA/ECDHE CBC-SHA or DTLS 1.2 RSA/ECDHE GCM or DTLS 1.0 RSA/ECDHE CBC-SHA (DTLS: full handshakes with cookie exchange, with/without client-auth; every puppet record is one datagram, lock-step, no timers), full or session-id-resumed handshake or (client victim) a session that holds an id AND a RFC 5077 ticket, which the server accepts (abbreviated) or declines (full), or (client victim) the RFC 5077 3.4 ticket-only client (first ServerHello had an empty session id + NewSessionTicket, so the next ClientHello carries the ticket and no id: MatrixSSL "ticket in limbo") whose ticket is accepted silently / accepted with extension + new ticket / declined / declined with a fresh ticket, ServerHello session id empty or fresh, RSA and ECDHE, TLS 1.2 and 1.1 - BOTH continuations (abbreviated under the ticket secret, full) are legal for such a client, a trace is illegal only if it leaves both languages; the puppet holds the ticket secret in all of these modes, so a Finished behind a stray CCS is keyed with it, or (client victim) history mode ticket-from-cut-handshake = the same sslSessionId_t went through a handshake with a ticket-issuing server that was cut after ServerHelloDone / NewSessionTicket / NewSessionTicket+CCS (silently or by a fatal alert): the next ClientHello must offer no id and no ticket (signature ticket-of-incomplete-handshake-offered) and only a full handshake is legal, (server victim, session-ticket keys loaded) client offering the SessionTicket extension empty or with a bogus ticket so that the server is in its ticket-issuing state, client-auth, EMS pairing, 0-2 ops from {delete i, duplicate i (same bytes or rebuilt), '
          'swap (i,i+1), re-tag type byte, substitute by another message, inject any message of the alphabet (HelloRequest, second Hello, ServerKeyExchange in RSA mode, '
          'CertificateRequest, Certificate, empty Certificate, CertificateVerify, NewSessionTicket, CCS, application data, warning alert, unknown type) at any position, '
          'flip one bit of Finished, wrong record protection (plaintext after CCS / protected before it), the complete legal trace of a neighbouring mode (client-auth, key exchange or resumption flipped), CCS body not 01, wrong-session-secret = abbreviated handshake keyed by the peer with an all-zero or random master secret, optionally with an empty ServerHello session id, Finished / CertificateVerify split over several records (every split with the 4-byte header in the first record) honest = legal or with all-zero / all-0xff / arbitrary / bit-flipped verify_data or signature, Finished / CertificateVerify body of the wrong length (0,11,13,36,1,24 / 0,4,130,n-1,n+1,n+36 bytes), DTLS only: record on the wrong epoch, message_seq gap or repeat, true retransmission (legal, must be ignored), 2-3 in-order handshake fragments}, '
          'trailing application data under the session keys, fragmentation / record coalescing / receive chunking); '
-         'c06_seq12_singles enumerates every single op over 68 modes (8 of them DTLS) with default framing, c06_seq12 samples 0/1/2 ops (10/50/40 %) with random framing; '
+         'c06_seq12_singles enumerates every single op over 81 modes (8 DTLS, 13 ticket-only) with default framing, c06_seq12 samples 0/1/2 ops (10/50/40 %) with random framing; '
          'non-trivial = the first message outside the language reached a live victim (or the trace was legal / a proper prefix and ran to its end); '
          'distinct by (role, version+suite, client-auth, op, position[, injected message])',
-    assumptions=['TLS <= 1.2: ticket resumption of a server victim (tickets issued by MatrixSSL), ticket-only client sessions, PSK/ECDH_/ECDSA suites and CertificateStatus are not generated (NewSessionTicket / CertificateStatus are only sent where they are illegal)',
+    assumptions=['ticket accepted AND renewed towards a ticket-only client (ServerHello+ext, NewSessionTicket, CCS, Finished; RFC 5077 3.1 fig. 2) is legal but refused by MatrixSSL (it learns of an acceptance only from an echoed id or a CCS in place of Certificate): receiver-may-refuse, only its deviations are judged',
+                 'TLS <= 1.2: ticket resumption of a server victim (tickets issued by MatrixSSL), PSK/ECDH_/ECDSA suites and CertificateStatus are not generated (NewSessionTicket / CertificateStatus are only sent where they are illegal)',
                  'a legal trace must complete only in record shapes MatrixSSL supports: no record holding the tail of one fragmented handshake message and the head of another, no handshake message whose first fragment is shorter than the 4-byte header (both are answered with decode_error: conformance limits, not C06); fragmented Finished / CertificateVerify are legal and must be accepted since /repo 72f7ec8',
                  'DTLS: a receiver may silently drop what is invalid, so for DTLS the oracle is never-complete + no delivery (not a fatal alert); MatrixSSL retransmission conventions are no-verdict: a further CCS where Finished is expected and records on a LATER epoch (its resent CCS/Finished flights bump the epoch), hellos renumbered to message_seq 0, a dropped record that is later retransmitted intact; at most 16 fragments per message (MAX_FRAGMENTS); DTLS resumption is not generated; loss/reordering/timers belong to C16'],
     targets=[
